@@ -217,6 +217,8 @@ def run(ctx: Ctx):
                     ev_ = {"kind": "date", "m": sm + 1440 * rnd.randint(1, 3)}
                 else:
                     ev_ = {"kind": kind, "m": sm + rnd.choice([30, 90, 1440, 2000])}
+                    if 1560 <= ev_["m"] < 1620:
+                        ev_["m"] += 60          # an anchor is never a wall time inside the skipped hour (assumption below)
                 espec = {"k": "end", "v": ev_, "d": 0}
             elif ek == "dur":
                 espec = {"k": "dur", "v": {"kind": "none", "m": 0}, "d": 1440 * rnd.randint(1, 2) if kind == "date" else rnd.choice([15, 60, 1440, 1500])}
